@@ -266,6 +266,19 @@ theorem mix_rgb_self (r g b : UInt8) (a1 a2 f : ℝ) :
   show (_, _, _) = _
   rw [er, eg, eb, interpolate_self, interpolate_self, interpolate_self, quantize_chan, quantize_chan, quantize_chan]
 
+/-- **Swapping the operands while complementing the fraction** gives the same bytes in RGB space
+(exact arithmetic; on floats the two sides may differ by one level at a rounding tie, which is what
+the statement's "by more than 1" allows and the check measures). -/
+theorem mix_rgb_swap (r1 g1 b1 r2 g2 b2 : UInt8) (a1 a2 f : ℝ) :
+    let m := mix .rgb (fromRgba8 r1 g1 b1 a1 : Color ℝ) (fromRgba8 r2 g2 b2 a2) f
+    let m' := mix .rgb (fromRgba8 r2 g2 b2 a2 : Color ℝ) (fromRgba8 r1 g1 b1 a1) (1 - f)
+    ((toRgba8 m).r, (toRgba8 m).g, (toRgba8 m).b) = ((toRgba8 m').r, (toRgba8 m').g, (toRgba8 m').b) := by
+  intro m m'
+  obtain ⟨er, eg, eb⟩ := mix_rgb_bytes r1 g1 b1 r2 g2 b2 a1 a2 f
+  obtain ⟨er', eg', eb'⟩ := mix_rgb_bytes r2 g2 b2 r1 g1 b1 a2 a1 (1 - f)
+  show (_, _, _) = (_, _, _)
+  rw [er, eg, eb, er', eg', eb', interpolate_swap (chan r1), interpolate_swap (chan g1), interpolate_swap (chan b1)]
+
 /-! ### HSL mixing of 8-bit colours, as bytes -/
 
 /-- **HSL mixing returns the operands' bytes at the end points** (exact arithmetic, every pair of
